@@ -123,6 +123,12 @@ def cleanP (p : PState) (r : Ref) : Option PState :=
   | some _ => putP p r .unk
   | none => none
 
+/-- the value part of `set_element_at` / `set_item` on an EXISTING member: NULL cleans it, an object is cloned onto it -/
+def setValueP (p : PState) (src : Option Ref) (target : Ref) : Option PState :=
+  match src with
+  | none => cleanP p target
+  | some s => copyOntoP p s target
+
 def emptyNames : List (Str × Option Str) → Option (List (Str × Str))
   | [] => some []
   | (n, some nk) :: rest => (emptyNames rest).map (fun l => (n, nk) :: l)
@@ -163,11 +169,7 @@ def stepP? (p : PState) : HOp → Option PState
     if r.isVal then
       match getP p r with
       | some (.lst vs) =>
-        if i < vs.length then
-          match src with
-          | none => cleanP p (r.member (.idx i))
-          | some s => copyOntoP p s (r.member (.idx i))
-        else none
+        if i < vs.length then setValueP p src (r.member (.idx i)) else none
       | _ => none
     else none
   | .lins r i src =>
@@ -203,10 +205,7 @@ def stepP? (p : PState) : HOp → Option PState
         | some e =>
           -- existing entry: the spelling first, then the value (unless the source is the very same object)
           match putP p r (.tbl (mapReplace es nk key e.2.2)) with
-          | some p1 =>
-            match src with
-            | none => cleanP p1 (r.member (.key nk))
-            | some s => copyOntoP p1 s (r.member (.key nk))
+          | some p1 => setValueP p1 src (r.member (.key nk))
           | none => none
       | _, _ => none
     else none
@@ -397,6 +396,21 @@ def copyOntoH (fuel : Nat) (s : HState) (src dst : Ref) : Option HState :=
     | _, _ => none
   else none
 
+/-- the value part of `set_element_at` / `set_item` on an EXISTING member: NULL cleans it (`cif_value_clean`), an object is
+    cloned onto it -/
+def setValueH (fuel : Nat) (s : HState) (src : Option Ref) (target : Ref) : Option HState :=
+  match src with
+  | none =>
+    match resolveRef s target with
+    | some t => (installAt fuel s.h t .unk).map (fun h' => { s with h := h' })
+    | none => none
+  | some sr => copyOntoH fuel s sr target
+
+/-- the temporary normalised key `k` is released at the end of `cif_map_set_item` on an existing key -/
+def freeKey (k : Nat) : Option HState → Option HState
+  | some s2 => (free s2.h k).map (fun h' => { s2 with h := h' })
+  | none => none
+
 /-- `build_value` for a list: successive `cif_value_insert_element_at(list, n, x)` at the end -/
 def apiBuildList (h : Heap) (a : Nat) : List V → Nat → Option Heap
   | [], _ => some h
@@ -434,6 +448,19 @@ def apiBuild (fuel : Nat) (h : Heap) (v : V) : Option (Nat × Heap) :=
     match alloc h (.val (.tbl [])) with
     | (a, h1) => (apiBuildTable fuel h1 a es).map (fun g => (a, g))
   | _ => some (buildNew h v)
+
+/-- `cif_map_set_item`, key not present: the normalised key (allocated by the normaliser), a copy of the key as given, a copy
+    of the value read from the caller's object (NULL: the unknown value), the entry block; the entry is appended -/
+def mapAddH (fuel : Nat) (h : Heap) (ents : List Nat) (nk key : Str) (x : Option Nat) : Option (List Nat × Heap) :=
+  match alloc h (.str nk) with
+  | (kn, h0) =>
+    match alloc h0 (.str key) with
+    | (koa, h1) =>
+      match copyFields fuel h1 x with
+      | some (hv, h2) =>
+        match alloc h2 (.entry hv kn koa) with
+        | (e, h3) => some (ents ++ [e], h3)
+      | none => none
 
 def stepH? (fuel : Nat) (s : HState) : HOp → Option HState
   | .nop => none
@@ -482,14 +509,7 @@ def stepH? (fuel : Nat) (s : HState) : HOp → Option HState
       | some la =>
         match getHV s.h la with
         | some (.lst elems size) =>
-          if i < lstSize elems size then
-            match src with
-            | none =>
-              match resolveRef s (r.member (.idx i)) with
-              | some t => (installAt fuel s.h t .unk).map (fun h' => { s with h := h' })
-              | none => none
-            | some sr => copyOntoH fuel s sr (r.member (.idx i))
-          else none
+          if i < lstSize elems size then setValueH fuel s src (r.member (.idx i)) else none
         | _ => none
       | none => none
     else none
@@ -531,41 +551,35 @@ def stepH? (fuel : Nat) (s : HState) : HOp → Option HState
     else none
   | .mset r key nk src =>
     if r.root.ok then
-      match resolveRef s r, nk with
-      | some m, some nk =>
-        match getHV s.h m with
-        | some (.tbl ents) =>
-          -- the normaliser allocates the normalised key
-          match alloc s.h (.str nk) with
-          | (kn, h0) =>
-            match findEntry h0 ents nk with
+      match nk with
+      | some nk =>
+        -- the normaliser allocates the normalised key (block `s.h.next`); the lookup uses it
+        match resolveRef { s with h := (alloc s.h (.str nk)).2 } r with
+        | some m0 =>
+          match getHV (alloc s.h (.str nk)).2 m0 with
+          | some (.tbl ents0) =>
+            match findEntry (alloc s.h (.str nk)).2 ents0 nk with
             | some none =>
-              match srcH s src with
-              | some x =>
-                match alloc h0 (.str key) with
-                | (koa, h1) =>
-                  match copyFields fuel h1 x with
-                  | some (hv, h2) =>
-                    match alloc h2 (.entry hv kn koa) with
-                    | (e, h3) => (putHV h3 m (.tbl (ents ++ [e]))).map (fun h' => { s with h := h' })
+              -- key not present: a new entry that keeps the normalised key (`mapAddH` allocates that block itself, so this
+              -- branch is computed from the state before the normaliser ran)
+              match resolveRef s r, srcH s src with
+              | some m, some x =>
+                match getHV s.h m with
+                | some (.tbl ents) =>
+                  match mapAddH fuel s.h ents nk key x with
+                  | some (ents', h3) => (putHV h3 m (.tbl ents')).map (fun h' => { s with h := h' })
                   | none => none
-              | none => none
+                | _ => none
+              | _, _ => none
             | some (some e) =>
               -- existing entry: new spelling, then cif_value_clone(src, &entry value) resp. clean for NULL; normalised key released
-              match entryRespell false h0 e key with
-              | some h1 =>
-                match (match src with
-                  | none =>
-                    match resolveRef { s with h := h1 } (r.member (.key nk)) with
-                    | some t => (installAt fuel h1 t .unk).map (fun h' => ({ s with h := h' } : HState))
-                    | none => none
-                  | some sr => copyOntoH fuel { s with h := h1 } sr (r.member (.key nk))) with
-                | some s2 => (free s2.h kn).map (fun h' => { s2 with h := h' })
-                | none => none
+              match entryRespell false (alloc s.h (.str nk)).2 e key with
+              | some h1 => freeKey s.h.next (setValueH fuel { s with h := h1 } src (r.member (.key nk)))
               | none => none
             | none => none
-        | _ => none
-      | _, _ => none
+          | _ => none
+        | none => none
+      | none => none
     else none
   | .mrem r nk dst =>
     if r.root.ok then
